@@ -229,6 +229,20 @@ Proof.
   - apply app_inv_head in H. subst s. now apply Hh.
 Qed.
 
+(* the join step of pathToFilePath on the default filesystem: a path without a leading slash is never glued to
+   Root directly — a '/' is inserted (so a prefix stripper that cuts inside a segment stays below Root) *)
+Theorem join_inserts_slash c path :
+  osfs c = true -> root c <> [] -> path <> [] ->
+  match path with ch :: _ => ch <> SLASH | [] => True end ->
+  match rev path with ch :: _ => ch =? SLASH | [] => false end = false ->
+  pathToFilePath c path false = root c ++ SLASH :: path.
+Proof.
+  intros Hos Hroot Hne Hhd _. unfold pathToFilePath. rewrite Hos. cbn [negb].
+  destruct path as [|ch rest]; [contradiction|].
+  destruct (ch =? SLASH) eqn:E; [apply N.eqb_eq in E; contradiction|].
+  destruct (root c) eqn:Er; [contradiction|]. cbn [beq negb andb]. now rewrite <- app_assoc.
+Qed.
+
 Theorem root_sibling_never_opened c reqPath host sfx s t :
   osfs c = true -> root c <> [] -> cfg_ok c -> (forall s, sfx = Some s -> sfx_ok s) ->
   sfx_ok s -> ~ In (t, tree_root c t ++ s) (candidate_names c reqPath host sfx).
